@@ -32,11 +32,17 @@ func verifParamSet(name string) *verifParams {
 }
 
 // C13: alpha + beta = a*b (mod q) for all a, b in [0,q), any two parameter sets
-func verifC13(withCheck bool) {
+func verifC13(withCheck, fixture bool) {
 	v.Summarise("ideal-paillier")
 	ec := tss.S256()
 	q := ec.Params().N
-	A, B := verifParamSet("A"), verifParamSet("B")
+	var A, B *verifParams
+	if fixture {
+		// the keys of the repository's test fixtures 0 and 1 (concrete, valid): replayable
+		A, B = verifFixtureSet(0), verifFixtureSet(1)
+	} else {
+		A, B = verifParamSet("A"), verifParamSet("B")
+	}
 	a, b := v.NondetNat("a"), v.NondetNat("b")
 	v.Assume("secrets-in-Zq", v.All(v.InRange(a, big.NewInt(0), q), v.InRange(b, big.NewInt(0), q)))
 	session := []byte("session")
@@ -91,5 +97,9 @@ func verifC13(withCheck bool) {
 	v.Reach("end")
 }
 
-func VerifHarness_C13_mta_plain()      { verifC13(false) }
-func VerifHarness_C13_mta_with_check() { verifC13(true) }
+func VerifHarness_C13_mta_plain()      { verifC13(false, false) }
+func VerifHarness_C13_mta_with_check() { verifC13(true, false) }
+
+// the same exchanges with concrete valid keys (secrets and coins still symbolic)
+func VerifHarness_C13_mta_plain_fixture_keys()      { verifC13(false, true) }
+func VerifHarness_C13_mta_with_check_fixture_keys() { verifC13(true, true) }
